@@ -156,7 +156,7 @@ def generate(rng, tier):
         actions.append({'id': 'auxr:reg_identity:%s:%s' % (other_host, surplus[0]['cid']), 'kind': 'reg_identity',
                         'cid': surplus[0]['cid'], 'host': other_host, 'deps': ['put:' + surplus[0]['cid']]})
 
-    return {
+    scn = {
         'shape': shape,
         'hosts': [c['host'] for c in containers],
         'containers': containers,
@@ -167,6 +167,48 @@ def generate(rng, tier):
         'connloss_seed': rng.getrandbits(32),
         'tail': rng.randrange(0, 12),
     }
+    _more_clients(scn)
+    return scn
+
+
+TERMINAL_EVENTS = (('finished', '0.0'), ('finished', '1.0'), ('killed', 'oom'), ('aborted', 'unknown'))
+
+
+def _more_clients(scn):
+    """Further clients of the same nodes, in about a third of the scenarios each (drawn from a generator derived
+    from the scenario, so that the scenarios without them are exactly what they were):
+
+    * `publish_terminal`: the event daemon of a host publishes a terminal event (finished / killed / aborted) of a
+      container through trace.app.zk.publish - often a stale one: an old container's event that is published after
+      the newer container of the instance was placed (possibly elsewhere); one ZooKeeper request of the publish may
+      fail with a connection loss (`fault_at` = its ordinal, None = no fault).
+    * `reg_runtime`: a runtime that talks to ZooKeeper itself (as the docker runtime does) registers a container
+      through EndpointPresence.register() under a session of its own, on the container's host or on the other one,
+      while whoever registered the instance before (the host's presence service, an earlier runtime) may still hold
+      the nodes; while it waits the holder may go away."""
+    import random
+    xr = random.Random((scn['connloss_seed'] * 2654435761 + 12345) % (1 << 32))
+    containers = scn['containers']
+    actions = scn['actions']
+    if xr.random() < 0.35:
+        for i in range(xr.choice([1, 1, 2])):
+            c = xr.choice(containers)
+            host = c['host'] if xr.random() < 0.7 else HOSTS[1 - HOSTS.index(c['host'])]
+            deps = ['put:' + c['cid']]
+            newer = [d for d in containers if d['instance'] == c['instance'] and d['gen'] > c['gen']]
+            if newer and xr.random() < 0.6:
+                deps.append('put:' + newer[0]['cid'])
+            event, data = xr.choice(TERMINAL_EVENTS)
+            actions.append({'id': 'auxp%d:publish_terminal:%s:%s' % (i, host, c['cid']), 'kind': 'publish_terminal',
+                            'cid': c['cid'], 'host': host, 'deps': deps, 'event': event, 'data': data,
+                            'fault_at': xr.choice([None, None, 1, 2, 3, 4, 5, 6])})
+    if xr.random() < 0.35:
+        for i in range(xr.choice([1, 1, 2])):
+            c = xr.choice(containers)
+            host = c['host'] if xr.random() < 0.7 else HOSTS[1 - HOSTS.index(c['host'])]
+            deps = ['put:' + c['cid']] if xr.random() < 0.75 else []
+            actions.append({'id': 'auxg%d:reg_runtime:%s:%s' % (i, host, c['cid']), 'kind': 'reg_runtime',
+                            'cid': c['cid'], 'host': host, 'deps': deps, 'seed': xr.getrandbits(32)})
 
 
 def describe(scn):
